@@ -26,11 +26,13 @@ _ID = {"rng": None, "map": {}, "keep": []}
 
 def sim_id(obj):
     k = _real_id(obj)
+    if _ID["rng"] is None:
+        return k              # not armed (another check imported this module): the builtin, nothing is retained
     v = _ID["map"].get(k)
     if v is None:
-        v = _ID["rng"].getrandbits(48) if _ID["rng"] is not None else k
+        v = _ID["rng"].getrandbits(48)
         _ID["map"][k] = v
-        _ID["keep"].append(obj)  # keep alive: a recycled address must not inherit an identity
+        _ID["keep"].append(obj)  # keep alive for this run: a recycled address must not inherit an identity
     return v
 
 
@@ -39,7 +41,7 @@ gb.id = sim_id  # module global shadows the builtin inside graphtage.bounds only
 
 
 def reset_ids(seed):
-    _ID["rng"] = random.Random(seed)
+    _ID["rng"] = random.Random(seed) if seed is not None else None
     _ID["map"] = {}
     _ID["keep"] = []
 
@@ -318,6 +320,7 @@ class C17:
         for k, v in stats.items():
             if k.startswith("fault.") and v:
                 counters[k] = v
+        reset_ids(None)
         counters["item_tighten_calls"] = stats["calls"]
         counters["item_bounds_reads"] = stats["reads"]
         counters["alg." + alg] = 1
